@@ -38,6 +38,14 @@ def jobs(tier, seed):
     for d in fam.f1(fam.P, tier) + fam.f1_mixed(tier):
         add(d, LATE, var="v1")
         add(d, LATE[:2], var="w2")
+    for d in fam.f1_mixed("quick"):
+        # partial w.r.t. a plain variable next to a possibly-undefined sibling: the symbolic partial may normalise to a constant
+        for v in ("v1", "v2", "v3"):
+            if v in rt.variables_of(d):
+                add(d, ["fwd_early", "diff_comp_at_early", "fwd_after_asexp", "diff_at_early"], var=v)
+    for d in [["Add", fam.X, ["Reciprocal", fam.Y]], ["Add", fam.X, ["Logarithm", ["const", -1]]], ["Add", ["Multiply", ["const", 2], fam.X], ["Divide", ["const", 0], ["Logarithm", fam.X]]],
+              ["Minus", ["Multiply", ["const", 3], fam.X], ["NthRoot", fam.Y, 2]]]:
+        add(d, ["fwd_early", "diff_comp_at_early", "fwd_after_asexp", "deriv_early"] if len(rt.variables_of(d)) <= 1 else ["fwd_early", "diff_comp_at_early", "fwd_after_asexp"], var="x")
     for d in fam.f1(fam.P, "quick"):
         add(d, EARLY[:2], var="v1")
         # the differentiation variable occurs nowhere in the expression (the partial is zero, the domain check must remain)
